@@ -71,6 +71,15 @@ class FcpV(V):
     src = "fcp"
 
 
+class ObjV(V):
+    """an instance of a repository class that is not one of the modelled kinds (e.g. a per-call wrapper around the schema):
+    its attributes are what its __init__ stored; its methods are interpreted"""
+
+    def __init__(self, cls: str, src: str = "obj"):
+        self.cls, self.src = cls, src
+        self.fields: Dict[str, V] = {}
+
+
 class StructV(V):
     def __init__(self, src):
         self.src = src
@@ -269,6 +278,8 @@ class Interp:
             base = self.expr(t.value, env, effects, f, depth)
             if isinstance(base, BufV):
                 effects.append(("cursor-store", t.attr, norm(val.src if isinstance(val, V) else "?", 30)))
+            elif isinstance(base, ObjV):
+                base.fields[t.attr] = val
         elif isinstance(t, (ast.Tuple, ast.List)):
             for e in t.elts:
                 self.assign(e, Unknown(), env, effects, f, depth)
@@ -481,6 +492,8 @@ class Interp:
                 return IntV(None, src="field.field_id")
         if isinstance(b, BufV):
             return Unknown("buffer.%s" % attr)
+        if isinstance(b, ObjV) and attr in b.fields:
+            return b.fields[attr]
         return Unknown("%s.%s" % (getattr(b, "src", "?"), attr))
 
     # -- calls -----------------------------------------------------------------------
@@ -493,6 +506,11 @@ class Interp:
             if isinstance(recv, BufV):
                 return self.buf_call(recv, name, e, env, effects, f, depth)
             args = [self.expr(a, env, effects, f, depth) for a in e.args]
+            if isinstance(recv, ObjV):
+                m_ = self.prog.find_method(self.prog.classes[recv.cls], name) if recv.cls in self.prog.classes else None
+                if m_ is None:
+                    return Unknown("%s.%s()" % (recv.src, name))
+                return self.call_function(m_, [recv] + args, {k.arg: self.expr(k.value, env, effects, f, depth) for k in e.keywords if k.arg}, effects, depth + 1)
             if isinstance(recv, TypeV):
                 if name == "get_length":
                     if recv.name is not None:
@@ -598,7 +616,7 @@ class Interp:
         if r and r[0] == "class":
             q = r[1]
             ci = self.prog.classes[q]
-            if q == self.buf_cls:
+            if q == self.buf_cls or q in getattr(self, "buf_classes", ()):
                 effects.append(("new-buffer",))
                 b = BufV(q)
                 b.fresh = True
@@ -613,6 +631,8 @@ class Interp:
                             if isinstance(n2, ast.Assign) and norm(n2.targets[0]) == "self.name" and isinstance(n2.value, ast.Constant):
                                 nm = n2.value.value
                 return TypeV(q, nm, "%s(%s)" % (ci.name, nm or ""))
+            if ci.module is self.module and "__init__" in ci.methods:
+                return self.new_object(q, args, kwargs, effects, depth)
             return Unknown("new:" + q)
         if r and r[0] == "func":
             f2 = self.prog.functions[r[1]]
@@ -628,6 +648,13 @@ class Interp:
         if isinstance(fn, ast.Name) and fn.id in env:
             return Unknown("callvar:" + fn.id)
         return Unknown("call:" + d)
+
+    def new_object(self, q: str, args, kwargs, effects, depth) -> V:
+        o = ObjV(q, self.prog.classes[q].name)
+        init = self.prog.classes[q].methods.get("__init__")
+        if init is not None:
+            self.call_function(init, [o] + list(args), kwargs, effects, depth + 1)
+        return o
 
     def count_of(self, a: V):
         if isinstance(a, IntV):
